@@ -136,7 +136,7 @@ Proof. exact gex_family_rated. Qed.
 (* literals the model repeats from the source are the ones the translator extracts from the current source (gen/Tables.v) *)
 From VGen Require Import Tables.
 From VModel Require Import Gex.
-From VProofs Require Import TieProofs.
+From VProofs Require Import TieC12.
 Theorem c12_tie_gex_names : In gex256 gex_algs /\ In gex256 rec_chg_names.
 Proof. exact tie_gex_names. Qed.
 Theorem c12_tie_2048_warning : gex_warn_text = k2_WARN_2048BIT_MODULUS /\ hk_two2k_warning = k2_WARN_2048BIT_MODULUS.
